@@ -13,6 +13,7 @@
 -/
 import UxVerif.Lemmas.SortUniq
 import UxVerif.Lemmas.Encode
+import UxVerif.Model.Readers
 
 namespace UxVerif.C07
 open UxVerif UxVerif.Encode
@@ -906,7 +907,7 @@ theorem exodus_rt_single_block {P X} (cfg : Cfg) (h1 : cfg.exoFillTest = false)
     (radToXyz : P → X) (deg2rad : P → P) (stored : Option (List X)) (n w : Nat) (t : Table)
     (nodes : List P) (hstd : StdForm n w t) (hne : t ≠ []) (hk : elemTypeKnown w = true) :
     ∃ out, encodeExodus cfg radToXyz deg2rad stored w t nodes = some out ∧
-      decodeExodusLast out.blocks = t := by
+      decodeExodusLast out.blocks = t ∧ out.blocks.length = 1 := by
   have hw : 0 < w := by
     cases t with
     | nil => exact absurd rfl hne
@@ -958,7 +959,7 @@ theorem exodus_rt_single_block {P X} (cfg : Cfg) (h1 : cfg.exoFillTest = false)
     | cons a b => exact ⟨a, b, rfl⟩
   refine ⟨{ coord := (match stored with
       | some xyz => xyz
-      | none => nodes.map (fun p => radToXyz (if cfg.exoDeg2rad then deg2rad p else p))), blocks := [Block.mk first.length ((first :: rest).map (·.map (· + 1))) 1] }, ?_, ?_⟩
+      | none => nodes.map (fun p => radToXyz (if cfg.exoDeg2rad then deg2rad p else p))), blocks := [Block.mk first.length ((first :: rest).map (·.map (· + 1))) 1] }, ?_, ?_, rfl⟩
   · unfold encodeExodus
     simp only [hrows, hcounts, sortLen_same_length w _ hlen]
     have hall : ((first :: rest).all fun r => r.length == first.length) = true := by
@@ -1302,5 +1303,252 @@ example : RoundTripOK .exodus [[0, 1, 2], [0, 2, 3, 4]] [[0, 2, 3, 4]] = false :
 example : RoundTripOK .scrip [[0, 1, 2], [0, 2, 3, 4]] [[0, 2, 3, 4], [0, 1, 2]] = false := by decide
 example : RoundTripOK .exodus [[0, 1, 2], [0, 2, 3, 4]] [[2, 3, 4, 0], [1, 2, 0]] = true := by decide
 example : RoundTripOK .scrip [[0, 1, 2], [0, 2, 3, 4]] [[1, 2, 0], [0, 2, 3, 4]] = true := by decide
+
+/-! ## 7. the reader side of this model agrees with C01's reader models (`Model/Readers.lean`)
+
+  C01 ties `UxVerif.Readers.decodeUgrid / decodeExodus / decodeScrip` to the real readers by its own
+  correspondence run.  The theorems below state that, on everything the encoders of this file can
+  emit (and in fact on far more), those decoders and the decode side of `Model/Encode.lean` give the
+  same result, and re-express the three round trips THROUGH C01's decoders. -/
+
+theorem minList_eq_min? : ∀ l : List Int, Readers.minList l = l.min?
+  | [] => rfl
+  | [x] => by simp [Readers.minList]
+  | x :: y :: l => by
+    have ih := minList_eq_min? (y :: l)
+    rw [Readers.minList, ih, List.min?_cons (xs := y :: l)]
+    cases h : (y :: l).min? with
+    | none => simp at h
+    | some m =>
+      simp only [Option.elim]
+      by_cases hx : x ≤ m <;> simp [hx, Int.min_def]
+
+/-- the UGRID variable the exporter writes, as a C01 source: `int64`, `_FillValue = INT_FILL_VALUE`,
+    the `start_index` attribute it carries -/
+def c01Source (start : Option Int) (t : Table) : Readers.USource :=
+  { cells := t.map (·.map Readers.Cell.val), fillAttr := some (.val FILL), startAttr := start, store := .i64 }
+
+theorem c01_replaceFill (t : Table) :
+    Readers.replaceFill (some (.val FILL)) (t.map (·.map Readers.Cell.val)) = t := by
+  unfold Readers.replaceFill
+  rw [List.map_map]
+  conv => rhs; rw [← List.map_id t]
+  apply List.map_congr_left
+  intro r _
+  simp only [Function.comp, List.map_map, id]
+  conv => rhs; rw [← List.map_id r]
+  apply List.map_congr_left
+  intro x _
+  simp only [Function.comp, Readers.cellInt, Readers.isFillCell, id]
+  by_cases h : x = FILL <;> simp [h]
+
+theorem c01_hasBad (t : Table) :
+    Readers.hasBad (some (.val FILL)) (t.map (·.map Readers.Cell.val)) = false := by
+  unfold Readers.hasBad
+  rw [List.any_eq_false]
+  intro r hr
+  obtain ⟨r0, _, rfl⟩ := List.mem_map.mp hr
+  rw [Bool.not_eq_true, List.any_eq_false]
+  intro c hc
+  obtain ⟨x, _, rfl⟩ := List.mem_map.mp hc
+  simp [Readers.badCell]
+
+/-- **UGRID readers agree** on the exporter's dialect, for EVERY table and for a present (any
+    value, `0` included) as well as an absent `start_index` attribute:
+    C01's repaired `_standardize_connectivity` is this file's `standardize`. -/
+theorem ugrid_readers_agree (start : Option Int) (t : Table) :
+    Readers.decodeUgrid (c01Source start t) = .ok (standardize start t) := by
+  unfold Readers.decodeUgrid c01Source
+  simp only [Readers.origFill, c01_hasBad, Bool.false_eq_true, if_false, c01_replaceFill]
+  congr 1
+  unfold standardize shiftTable Readers.shift Readers.shiftRow Readers.startOf minNonFill Readers.nonFill
+  cases start with
+  | some a => rfl
+  | none => simp only [minList_eq_min?]
+
+/-- the exported table of a padded mesh is literally C01's UGRID source in the dialect
+    `base 0, start_index declared, _FillValue = INT_FILL_VALUE, int64` -/
+theorem export_is_c01_dialect (w : Nat) (m : Mesh) :
+    c01Source (some 0) (pad w m) =
+      Readers.encodeUgrid { base := 0, declared := true, fill := .int FILL, store := .i64 } w m := by
+  unfold c01Source Readers.encodeUgrid pad
+  simp only [List.map_map, Readers.fillAttrOf, if_true]
+  congr 1
+  apply List.map_congr_left
+  intro f _
+  simp [Function.comp, padRow, Readers.encRow, Readers.padCell, List.map_append, List.map_map]
+
+/-- **ugrid_rt through C01's decoder**: the reader model that C01 ties to the code, applied to
+    the exported `face_node_connectivity` variable (with the `start_index` attribute it really
+    carries), returns the grid's table — whatever else is in the dataset. -/
+theorem ugrid_rt_via_c01 {P} (cfg : Cfg) (tmpl : Topo) (d : Ds P) :
+    ∃ v, (encodeUgrid cfg tmpl d).1.vars.find? (fun v => v.name == "face_node_connectivity") = some v ∧
+      Readers.decodeUgrid (c01Source (startOf v) (encodeUgrid cfg tmpl d).1.table) = .ok d.table := by
+  unfold encodeUgrid
+  simp only
+  split
+  · refine ⟨fncVar.strip, ?_, ?_⟩
+    · rw [List.find?_map]
+      have : ((fun v : Var => v.name == "face_node_connectivity") ∘ Var.strip)
+          = (fun v => v.name == "face_node_connectivity") := by funext v; rfl
+      rw [this, find_fnc]; rfl
+    · rw [ugrid_readers_agree, startOf_fnc.2, standardize_zero]
+  · exact ⟨fncVar, find_fnc cfg d, by rw [ugrid_readers_agree, startOf_fnc.1, standardize_zero]⟩
+
+/-- padding a row with `FILL` does not change the face it stores -/
+theorem faceOf_append_replicate_fill (a : List Int) (k : Nat) :
+    faceOf (a ++ List.replicate k FILL) = faceOf a := by
+  unfold faceOf
+  induction a with
+  | nil => cases k <;> simp [List.replicate_succ]
+  | cons x a ih =>
+    simp only [List.cons_append, List.takeWhile_cons]
+    split
+    · rw [ih]
+    · rfl
+
+theorem flatMap_congr' {α β : Type} (l : List α) (f g : α → List β) (h : ∀ a ∈ l, f a = g a) :
+    l.flatMap f = l.flatMap g := by
+  induction l with
+  | nil => rfl
+  | cons a l ih =>
+    simp only [List.flatMap_cons]
+    rw [h a (by simp), ih (fun b hb => h b (by simp [hb]))]
+
+/-- **Exodus readers agree** on the faces, for EVERY list of blocks: C01's repaired reader pads
+    each block with zeros to the widest ROW before `- 1`, this file's pads with the fill value to the
+    widest `num_nod_per_el` after it — the tables can differ only in the number of trailing padding
+    columns (not at all for the rectangular, non-empty blocks the encoder writes). -/
+theorem exodus_readers_agree (bs : List Block) :
+    (Readers.decodeExodus (bs.map (·.connect))).map faceOf = (decodeExodusAll bs).map faceOf := by
+  unfold Readers.decodeExodus decodeExodusAll
+  simp only [List.flatMap_map, List.map_flatMap, List.map_map]
+  apply flatMap_congr'
+  intro b _
+  apply List.map_congr_left
+  intro r _
+  simp only [Function.comp, exoDecRow, List.map_append, List.map_replicate]
+  have : (if (0 : Int) - 1 = -1 then FILL else 0 - 1) = FILL := by decide
+  rw [this, faceOf_append_replicate_fill, faceOf_append_replicate_fill]
+
+/-- **exodus_rt_perm through C01's decoder** (all blocks, the reader now in the tree) -/
+theorem exodus_rt_perm_via_c01 {P X} (cfg : Cfg) (h1 : cfg.exoFillTest = true) (h2 : cfg.exoStartAccum = true)
+    (radToXyz : P → X) (deg2rad : P → P) (stored : Option (List X)) (n w : Nat) (t : Table)
+    (nodes : List P) (hstd : StdForm n w t)
+    (hk : ∀ r ∈ t, elemTypeKnown (faceOf r).length = true) :
+    ∃ out, encodeExodus cfg radToXyz deg2rad stored w t nodes = some out ∧
+      ((Readers.decodeExodus (out.blocks.map (·.connect))).map faceOf).Perm (t.map faceOf) := by
+  obtain ⟨out, h, hp, _⟩ := exodus_rt_perm cfg h1 h2 radToXyz deg2rad stored n w t nodes hstd hk
+  exact ⟨out, h, by rw [exodus_readers_agree]; exact hp⟩
+
+/-- the Exodus encoder as it stands in the tree (one full-width block) through C01's decoder:
+    the same faces in the same order -/
+theorem exodus_single_block_via_c01 {P X} (cfg : Cfg) (h1 : cfg.exoFillTest = false)
+    (radToXyz : P → X) (deg2rad : P → P) (stored : Option (List X)) (n w : Nat) (t : Table)
+    (nodes : List P) (hstd : StdForm n w t) (hne : t ≠ []) (hk : elemTypeKnown w = true) :
+    ∃ out, encodeExodus cfg radToXyz deg2rad stored w t nodes = some out ∧
+      (Readers.decodeExodus (out.blocks.map (·.connect))).map faceOf = t.map faceOf := by
+  obtain ⟨out, h, hdec, hlen⟩ := exodus_rt_single_block cfg h1 radToXyz deg2rad stored n w t nodes hstd hne hk
+  refine ⟨out, h, ?_⟩
+  rw [exodus_readers_agree]
+  obtain ⟨b, hb⟩ : ∃ b, out.blocks = [b] := by
+    cases hbs : out.blocks with
+    | nil => rw [hbs] at hlen; simp at hlen
+    | cons b rest =>
+      cases rest with
+      | nil => exact ⟨b, rfl⟩
+      | cons c rest' => rw [hbs] at hlen; simp at hlen
+  have : decodeExodusAll out.blocks = decodeExodusLast out.blocks := by
+    rw [hb]; simp [decodeExodusAll, decodeExodusLast]
+  rw [this, hdec]
+
+/-- `rank` does not depend on which (lawful) equality test is used -/
+theorem rank_inst {α : Type} (i1 i2 : BEq α) [@LawfulBEq α i1] [@LawfulBEq α i2] (l : List α) (x : α) :
+    @rank α i1 l x = @rank α i2 l x := by
+  have hb : ∀ a b : α, @BEq.beq α i1 a b = @BEq.beq α i2 a b := by
+    intro a b
+    by_cases h : a = b
+    · subst h; rw [(@beq_iff_eq α i1 _ a a).mpr rfl, (@beq_iff_eq α i2 _ a a).mpr rfl]
+    · have h1 : @BEq.beq α i1 a b = false := by
+        cases hh : @BEq.beq α i1 a b with
+        | false => rfl
+        | true => exact absurd (@LawfulBEq.eq_of_beq α i1 _ _ _ hh) h
+      have h2 : @BEq.beq α i2 a b = false := by
+        cases hh : @BEq.beq α i2 a b with
+        | false => rfl
+        | true => exact absurd (@LawfulBEq.eq_of_beq α i2 _ _ _ hh) h
+      rw [h1, h2]
+  unfold rank
+  congr 1
+  induction l with
+  | nil => rfl
+  | cons a l ih =>
+    rw [@List.idxOf_cons α a l x i1, @List.idxOf_cons α a l x i2, hb, ih]
+
+/-- C01's `scripPad` + `-1 → FILL` is this file's `collapseRow` on rows of ranks -/
+theorem scripPad_eq_collapseRow (r : List Int) (h : ∀ x ∈ r, x ≠ -1) :
+    (Readers.scripPad r).map (fun x => if x = -1 then FILL else x) = collapseRow r := by
+  unfold Readers.scripPad Readers.lastRun collapseRow
+  cases hr : r.reverse with
+  | nil =>
+    have : r = [] := by simpa using hr
+    subst this; simp
+  | cons a rest =>
+    have hlast : r.getLastD 0 = a := by
+      have : r = (a :: rest).reverse := by rw [← hr, List.reverse_reverse]
+      rw [this]; simp [List.getLastD_eq_getLast?]
+    simp only [hlast, List.takeWhile_cons, beq_self_eq_true, if_true, List.length_cons,
+      Nat.add_sub_cancel, List.map_append, List.map_replicate]
+    congr 1
+    conv => rhs; rw [← List.map_id (List.take _ r)]
+    apply List.map_congr_left
+    intro x hx
+    have := h x (List.mem_of_mem_take hx)
+    simp [this]
+
+/-- **SCRIP readers agree** on EVERY corner table: C01's repaired `decodeScrip` is this file's
+    `decodeScripCollapse` at `P = Int × Int` with the lexicographic order of `np.unique(axis=0)`. -/
+theorem scrip_readers_agree (C : List (List Readers.Key)) :
+    Readers.decodeScrip C = (decodeScripCollapse pairLt C).2 ∧
+    Readers.scripNodes C = (decodeScripCollapse pairLt C).1 := by
+  refine ⟨?_, rfl⟩
+  unfold Readers.decodeScrip decodeScripCollapse decodeScrip Readers.scripNodes uniqPair
+  simp only [List.map_map]
+  apply List.map_congr_left
+  intro row _
+  simp only [Function.comp]
+  have hrow : row.map (@rank Readers.Key instBEqProd (sortUniqBy pairLt C.flatten))
+      = row.map (@rank Readers.Key instBEqOfDecidableEq (sortUniqBy pairLt C.flatten)) :=
+    List.map_congr_left (fun k _ => rank_inst instBEqProd instBEqOfDecidableEq _ k)
+  rw [hrow]
+  apply scripPad_eq_collapseRow
+  intro x hx
+  obtain ⟨k, _, rfl⟩ := List.mem_map.mp hx
+  intro hx1
+  unfold rank at hx1
+  have : (0 : Int) ≤ -1 := hx1 ▸ Int.natCast_nonneg _
+  exact absurd this (by decide)
+
+/-- **scrip_rt through C01's decoder**: for every standard-form table of any size mix over nodes
+    at integer-pair positions that are distinct within each face, the encoder's corner table
+    decoded by C01's `decodeScrip` has, face by face in order, the original corner positions. -/
+theorem scrip_rt_via_c01 (cfg : Cfg) (hc : cfg.scripPadLast = true) (n w : Nat) (t : Table)
+    (nodes : List Readers.Key) (hstd : StdForm n w t) (hn : n ≤ nodes.length)
+    (hd : FaceDistinct nodes t) :
+    ∃ C, encodeScrip cfg t nodes = some C ∧
+      (Readers.decodeScrip C).map (rowPositions (Readers.scripNodes C)) = t.map (rowPositions nodes) := by
+  obtain ⟨C, hC, h⟩ := scrip_rt pairLt cfg hc n w t nodes hstd hn hd
+  exact ⟨C, hC, by rw [(scrip_readers_agree C).1, (scrip_readers_agree C).2]; exact h⟩
+
+/-- non-vacuity of the agreement: a mixed table through both SCRIP decoders, and a table not
+    using index 0 through both UGRID decoders with and without the attribute -/
+example : (encodeScrip Cfg.repaired [[0, 1, 2, 3, FILL], [0, 1, 2, 3, 4]]
+      [((10 : Int), (0 : Int)), (11, 0), (12, 0), (13, 1), (14, 5)]).map Readers.decodeScrip
+    = some [[0, 1, 2, 3, FILL], [0, 1, 2, 3, 4]] := by decide
+example : (Readers.decodeUgrid (c01Source (some 0) [[1, 2, 3, FILL], [1, 3, 4, 5]])).toOption
+      = some [[1, 2, 3, FILL], [1, 3, 4, 5]] ∧
+    (Readers.decodeUgrid (c01Source none [[1, 2, 3, FILL], [1, 3, 4, 5]])).toOption
+      = some [[0, 1, 2, FILL], [0, 2, 3, 4]] := by
+  decide
 
 end UxVerif.C07
